@@ -12,6 +12,7 @@ def planOutputs : List (String × Nat) → Prog → List (Key × RVal)
   | c, .discard k => planOutputs c k
   | c, .force k => planOutputs c k
   | c, .recordData _ _ k => planOutputs c k
+  | c, .setEnabled _ k => planOutputs c k
   | c, .playData _ k => planOutputs c (k (.ret (.atom "None")))
   | c, .callIn _ _ body k =>
     match bodyEnd body with
@@ -57,6 +58,15 @@ theorem recorded_is_sent : ∀ (p : Prog), p.All (fun cfg args _ => InputKeyShap
       simp [doRecordData, hrm, write_active, ha]
     have := ih hwf (doRecordData s key v) _ aF (by simpa using hp) (by simpa using he) (by simpa using hi) hs' hact
     simpa [planOutputs, extractOutputs_free] using this
+  | setEnabled b k ih =>
+    intro hwf s a aF hp he hi ha hact
+    cases b with
+    | false =>
+      rw [exec, exec_active_none k _ (doSetEnabled_false_active s)] at hact
+      cases hact
+    | true =>
+      rw [exec, doSetEnabled_true_of_enabled he] at hact
+      simpa [planOutputs] using ih hwf s a aF hp he hi ha hact
   | playData key k ih =>
     intro hwf s a aF hp he hi ha hact
     rw [exec] at hact
@@ -121,7 +131,7 @@ theorem recorded_is_sent : ∀ (p : Prog), p.All (fun cfg args _ => InputKeyShap
             have hs2a : (write (setInt s1 false) k0 env).active = some { a1 with data := (k0, env) :: a1.data } := by
               simp [write_active, h1a]
             have ih := ihk ob (hwfk ob) (write (setInt s1 false) k0 env) _ aF (by simpa using b2)
-              (by simpa using b3.trans (by simpa using he)) (by simp [setInt]) hs2a hact
+              (by simpa using b3 (by simpa using he) a1 h1a) (by simp [setInt]) hs2a hact
             obtain ⟨al, tt, aa, kw, hk0⟩ := hshape k0 fb hkeys
             rw [ih]
             simp only [write_counter, setInt_counter, c2, addJournal_counter, hk0, extractOutputs_input, c1]
@@ -197,7 +207,7 @@ theorem recorded_is_sent : ∀ (p : Prog), p.All (fun cfg args _ => InputKeyShap
               = some { a2 with data := (.outRes cfg.alias (cnt s.counter cfg.alias + 1), env) :: a2.data } := by
             simp [write_active, h2a]
           have ih := ihk ob (hwfk ob) (write (setInt s2 false) (.outRes cfg.alias (cnt s.counter cfg.alias + 1)) env) _ aF
-            (by simpa using b2) (by simpa using b3.trans (by simpa using he)) (by simp [setInt]) hs3a hact
+            (by simpa using b2) (by simpa using b3 (by simpa using he) a2 h2a) (by simp [setInt]) hs3a hact
           rw [ih]
           have hcnt : s2.counter = bumpC s.counter cfg.alias := by simpa [bump_counter] using c2
           simp only [write_counter, setInt_counter, hcnt, extractOutputs_outRes, c1, extractOutputs_outArgs]
